@@ -601,7 +601,7 @@ class HistogramBase(abc.ABC):
         new_shape = list(self.shape)
         new_shape[axis] = new_size
         new_frequencies = np.zeros(new_shape, dtype=self._frequencies.dtype)
-        new_errors2 = np.zeros(new_shape, dtype=self._frequencies.dtype)
+        new_errors2 = np.zeros(new_shape, dtype=self._errors2.dtype)
         self._apply_bin_map(
             old_frequencies=self._frequencies,
             new_frequencies=new_frequencies,
